@@ -50,6 +50,28 @@ fn poll_timeout_clamp(mut timeout: Option<Duration>, next_timeout: Option<Durati
     timeout
 //@ endslice
 
+impl Poll {
+//@ slice src/sys.rs / impl Poll / fn poll :: stmts <<let mut events = self.events.borrow_mut();>> ..< <<let level_triggered =>> props=C12,C11 name=Poll::poll::wait_step
+//@ rw R10 * <<self.events.borrow_mut()>> => <<events_cell>>
+//@ sig
+/// S1 slice of Poll::poll: from the borrow of the event buffer up to (not including) the conversion of the collected
+/// events -- the one wait on the OS poller. R10: the borrow of the buffer cell becomes `events_cell`; `timeout` (already
+/// clamped, see timeout_clamp) becomes a parameter.
+fn poll_wait_step(&self, events_cell: &mut Events, timeout: Option<Duration>) -> (r: crate::Result<()>)
+//@ spec
+    requires
+        // C12/C11 (may-call side): the poller may be waited on with the clamped timeout and with nothing else -- in
+        // particular not a second time for "the rest" of some interval: a wait that returned early because of a wake-up
+        // (LoopSignal::wakeup, a ping from another thread) has consumed the notification, and a further wait would swallow it
+        forall|t: Option<Duration>| #[trigger] self.pl().may_wait(t) <==> t == timeout,
+    ensures
+        // (must-call side) the poller has been waited on with exactly that timeout
+        r is Ok ==> self.pl().w_waited(timeout),
+//@ tail
+    Ok(())
+//@ endslice
+}
+
 //@ slice src/sys.rs / impl Poll / fn poll :: after <<drop(events);>> props=C02,C05 name=Poll::poll::expired_timers_loop
 //@ rw R10 * <<self.timers.borrow_mut()>> => <<timers_cell>>
 //@ sig
